@@ -18,6 +18,7 @@ from transactron.utils.dependencies import DependencyContext, DependencyManager
 ENGINE = "compmon"
 TECHNIQUE = "runtime monitoring: per-cycle monitor on caller/target adapters of each transformer (enable, done, argument, result) against its documented function"
 L = [("x", 8)]
+KLASS_FILTER = "methodfilter:use_condition_truncates_multi_bit_condition"
 
 
 class Circ(Elaboratable):
@@ -76,29 +77,37 @@ def make_filter(uc, via_create=False):
         bit = rnd.randrange(2)
         pos = rnd.randrange(3)
         dflt = rnd.randrange(1, 256)
-        cond = lambda m, v: v.x[pos] == bit  # noqa: E731
+        # half of the conditions are multi-bit values ("non-zero return value is interpreted as true"), often non-zero with bit 0 clear
+        mask = rnd.choice([0b0110, 0b1100, 0b1010_0000, 0b0000_0110]) if rnd.random() < 0.5 else 0
+        if mask:
+            cond = lambda m, v: v.x & mask  # noqa: E731
+        else:
+            cond = lambda m, v: v.x[pos] == bit  # noqa: E731
         if via_create:
             t = fresh_target()
             dut = MethodFilter.create(t.iface, cond, default={"x": dflt}, use_condition=uc)
-            return dut, [AdapterTrans.create(dut.method)], [t], (uc, bit, pos, dflt)
+            return dut, [AdapterTrans.create(dut.method)], [t], (uc, bit, pos, dflt, mask)
         dut = MethodFilter(L, L, cond, default={"x": dflt}, use_condition=uc)
-        return dut, [AdapterTrans.create(dut.method)], [mk_target(dut.target)], (uc, bit, pos, dflt)
+        return dut, [AdapterTrans.create(dut.method)], [mk_target(dut.target)], (uc, bit, pos, dflt, mask)
     return make
 
 
 def check_filter(rec, info, cy, case):
-    uc, bit, pos, dflt = info
+    uc, bit, pos, dflt, mask = info
     en, arg, done, out = cy["c_en"][0], cy["c_arg"][0], cy["c_done"][0], cy["c_out"][0]
-    cond = ((arg >> pos) & 1) == bit
+    cond = (arg & mask) != 0 if mask else ((arg >> pos) & 1) == bit
+    klass = KLASS_FILTER if (uc and mask and cond and not (arg & mask) & 1) else ""
+    if mask and cond and not (arg & mask) & 1:
+        rec.count("filter_multi_bit_condition_values_with_bit0_clear")
     ten = cy["t_en"][0]
     exp_done = en and (ten or (uc and not cond))
-    rec.check("filter:runs_iff_allowed", done == exp_done, case=case, detail=dict(cy, condition=cond))
-    rec.check("filter:target_called_only_when_condition_holds", cy["t_done"][0] == (done and cond), case=case, detail=dict(cy, condition=cond))
+    rec.check("filter:runs_iff_allowed", done == exp_done, klass=klass, case=case, detail=dict(cy, condition=cond, condition_mask=mask))
+    rec.check("filter:target_called_only_when_condition_holds", cy["t_done"][0] == (done and cond), klass=klass, case=case, detail=dict(cy, condition=cond, condition_mask=mask))
     if done and cond:
-        rec.check("filter:argument_and_result_forwarded", cy["t_arg"][0] == arg and out == cy["t_ret"][0], case=case, detail=cy)
+        rec.check("filter:argument_and_result_forwarded", cy["t_arg"][0] == arg and out == cy["t_ret"][0], klass=klass, case=case, detail=cy)
         rec.count("calls_condition_true")
     if done and not cond:
-        rec.check("filter:default_returned", out == dflt, case=case, detail=cy)
+        rec.check("filter:default_returned", out == dflt, klass=klass, case=case, detail=cy)
         rec.count("calls_condition_false")
         if not ten:
             rec.count("filter_not_blocked_by_unready_target")
